@@ -51,6 +51,7 @@ XsdNs == "http://www.w3.org/2001/XMLSchema"
 TreeToks(n) ==
   CASE n = "plain"     -> << S("", "note"), <<"T", "hi">>, E >>
     [] n = "typed_int" -> << S("urn:bag", "v"), <<"X", XsdNs, "int">>, <<"T", "5">>, E >>
+    [] n = "typed_xsd" -> << S("urn:bag", "v"), <<"X", XsdNs, "decimal">>, <<"T", "5">>, E >>
     [] n = "typed_bag" -> << S("urn:bag", "props"), S("urn:bag", "v"), <<"X", XsdNs, "string">>, <<"T", "a">>, E,
                              S("urn:bag", "v"), <<"X", XsdNs, "int">>, <<"T", "5">>, E, E >>
 RECURSIVE EncElem(_, _, _, _, _, _), EncFields(_, _, _, _, _, _), EncItems(_, _, _, _, _, _, _), Attrs(_, _, _)
